@@ -60,6 +60,11 @@ func genOutcomes(t *rapid.T) []world.FetchOutcome {
 		if k == "chunkerr" {
 			o.Chunk = rapid.IntRange(0, 2).Draw(t, "chunk")
 		}
+		if k == "chunkerr" || k == "listerr" {
+			// flavours of a transient failure: generic, deadline exceeded, the DA layer's own deadline /
+			// timeout errors, and a call that hangs until the fetch timeout fires
+			o.Err = rapid.SampledFrom([]string{"", "", "deadline", "da-deadline", "timeout", "hang"}).Draw(t, "flavour")
+		}
 		out = append(out, o)
 	}
 	return out
@@ -247,7 +252,7 @@ func run(sc Scenario, dir string) world.Verdict {
 			case m.VerifRetrieveCh() <- struct{}{}:
 			default:
 			}
-			time.Sleep(2 * time.Second) // the 10 x 100 ms retries of one height elapse in virtual time
+			time.Sleep(32 * time.Second) // the 10 x 100 ms retries and a hanging fetch's 30 s timeout elapse in virtual time
 			synctest.Wait()
 		}
 		if loopPanic != nil {
